@@ -326,6 +326,15 @@ type RunCfg struct {
 	// CancelAtEvent > 0: cancel() is invoked synchronously when the n-th boundary event
 	// (BeginCycle, EvaluateRuleEntry, ExecuteRuleEntry, harness method call) occurs.
 	CancelAtEvent int
+	// Shared, when set, makes consecutive calls use ONE engine object and ONE data context
+	// (facts are re-added before every call), as an application that keeps both around does.
+	Shared *SharedEnv
+}
+
+// SharedEnv is an engine and a data context kept across calls.
+type SharedEnv struct {
+	Eng *engine.GruleEngine
+	DC  ast.IDataContext
 }
 
 // RunResult is everything observed in one engine call.
@@ -382,6 +391,11 @@ func liveReader(dc ast.IDataContext, init State) func() State {
 // caller's own objects), JSON facts as documents, scalars as values.
 func NewDataCtx(st State) (ast.IDataContext, error) {
 	dc := ast.NewDataContext()
+	return dc, fillDataCtx(dc, st)
+}
+
+// fillDataCtx adds (or replaces) every entry of st in dc.
+func fillDataCtx(dc ast.IDataContext, st State) error {
 	keys := make([]string, 0, len(st))
 	for k := range st {
 		keys = append(keys, k)
@@ -392,18 +406,18 @@ func NewDataCtx(st State) (ast.IDataContext, error) {
 		case *JSONFact:
 			b, err := json.Marshal(v.Tree)
 			if err != nil {
-				return nil, err
+				return err
 			}
 			if err := dc.AddJSON(k, b); err != nil {
-				return nil, err
+				return err
 			}
 		default:
 			if err := dc.Add(k, v); err != nil {
-				return nil, err
+				return err
 			}
 		}
 	}
-	return dc, nil
+	return nil
 }
 
 // Run executes kb on st (st's own objects are handed to the engine and mutated by it).
@@ -443,13 +457,30 @@ func Run(kb *ast.KnowledgeBase, prog *Program, st State, cfg RunCfg) *RunResult 
 		t.h = cfg.Hooks
 		t.shad = false
 	}
-	dc, err := NewDataCtx(st)
+	var dc ast.IDataContext
+	var err error
+	if cfg.Shared != nil && cfg.Shared.DC != nil {
+		dc = cfg.Shared.DC
+		err = fillDataCtx(dc, st)
+	} else {
+		dc, err = NewDataCtx(st)
+		if cfg.Shared != nil {
+			cfg.Shared.DC = dc
+		}
+	}
 	if err != nil {
 		res.Err = fmt.Errorf("harness: data context: %w", err)
 		return res
 	}
 	rec.live = liveReader(dc, st)
 	eng := engine.NewGruleEngine()
+	if cfg.Shared != nil {
+		if cfg.Shared.Eng == nil {
+			cfg.Shared.Eng = eng
+		}
+		eng = cfg.Shared.Eng
+		eng.Listeners = nil
+	}
 	eng.MaxCycle = cfg.MaxCycle
 	eng.ReturnErrOnFailedRuleEvaluation = cfg.RetErr
 	nl := cfg.Listeners
